@@ -78,9 +78,14 @@ def relation_case(draw, tier="quick"):
             out["large"] = True
         if name == "valid_range" and case["kind"] == "dt":
             out["c"] = int(draw(st.integers(-10 ** 9, 10 ** 9)))
-    if draw(st.integers(0, 2)) == 0:
+    if draw(st.integers(0, 2)) == 0 or (rel == "joint" and name == "gross_range" and draw(st.booleans())):
         out["carrier"] = [draw(st.sampled_from(["masked_junk", "masked_junk", "masked_mixed", "masked_nan", "list_none", "series"])),
                           draw(st.sampled_from([0.0, 1.0, -9999.0, 12.125, 1e20]))]
+    if out.get("carrier") and rel == "joint" and name == "gross_range" and draw(st.booleans()):
+        # what hides under the masks lies inside the spans before the shift (and, not being data, stays where it is)
+        out["carrier"][1] = (case["fail"][0] + case["fail"][1]) / 2
+        if not any(model.miss(v) for v in case["x"]) and case["x"]:
+            case["x"][draw(st.integers(0, len(case["x"]) - 1))] = None
     if rel == "tshift":
         out["k"] = draw(st.one_of(st.integers(-10 ** 9, 10 ** 9), st.sampled_from([1, -1, 86400, -1577836800, 31536000])))
         if name == "valid_range":
